@@ -22,6 +22,9 @@ pub enum Deco {
     /// two comments without anything between them, the second one ending the line:
     /// `/* a *//* b */` or `/* a */// b`; `glued` = no blank before the first one either
     Adjacent { first: u8, second: u8, line: bool, glued: bool },
+    /// a skipped conditional block on lines of its own, holding a multi-line comment whose lines
+    /// look like conditional directives (they are comment text, not directives)
+    SkippedBlock(u8),
 }
 
 #[derive(Debug, Clone, Serialize, Deserialize)]
@@ -207,6 +210,17 @@ pub fn render(src: &str, decos: &[Deco]) -> Rendered {
                         tricky = true;
                     }
                 }
+                Deco::SkippedBlock(k) => {
+                    out.push_str(orig);
+                    out.push('\n');
+                    match k % 4 {
+                        0 => out.push_str("#if 0\nskipped text /* a comment opens here\n#else\n#endif\nand ends here */ more skipped text\n#endif\n"),
+                        1 => out.push_str("#ifdef NOT_DEFINED_ANYWHERE\n/* note:\n#ifdef DEBUG\n*/\nchar hidden_by_the_condition;\n#endif\n"),
+                        2 => out.push_str("#if 0\n/*\n#endif\n*/\n#else\n/* active part\n#if 0\n*/\n#endif\n"),
+                        _ => out.push_str("#if 0\nit's \"quoted /* not a comment\"\n#endif\n"),
+                    }
+                    tricky = true;
+                }
                 Deco::Adjacent { first, second, line, glued } => {
                     let t1 = TEXTS[first as usize % TEXTS.len()];
                     let t2 = TEXTS[second as usize % TEXTS.len()];
@@ -289,6 +303,7 @@ fn gen_deco(g: &mut G, ex: &Excl) -> Deco {
             let replace = g.chance(1, 4) && !ex.has("comment_as_only_separator");
             Deco::BlockComment(k, 1 + g.below(4) as u8, !replace)
         }
+        12 if g.chance(1, 3) => Deco::SkippedBlock(g.below(4) as u8),
         11 => Deco::Adjacent { first: g.below(TEXTS.len()) as u8, second: g.below(TEXTS.len()) as u8, line: g.chance(1, 2), glued: g.chance(1, 2) },
         _ => Deco::None,
     }
